@@ -3,6 +3,7 @@
    Log/RingProofs.v and followed by Print Assumptions. *)
 From Coq Require Import NArith List PeanoNat.
 From V9 Require Import Lib.GoSem Gen.Consts Log.Ring Log.RingProofs.
+From V9 Require Shape.ShapeLib Shape.PLog.
 Import ListNotations.
 
 (* For every capacity N >= 1, every sequence of logged entries and every filter:
@@ -82,3 +83,10 @@ Example C20_lts_nonvacuous :
             /\ l_processed s = [mkEntry 1 0 1]%N /\ length (l_chan s) = 2
             /\ l_results s = [[mkEntry 1 0 1]]%N.
 Proof. eexists. vm_compute. repeat split. Qed.
+
+(* ---- a modelling assumption about the shape of the CURRENT source (Gen/Shape.v), re-checked on every run ---- *)
+(* the producer / channel / logger LTS of Log/Ring.v: every Filter call has a reply channel of its own, the ring is
+   touched by the logger goroutine only *)
+Theorem C20_source_logger_shape : V9.Shape.ShapeLib.logger_shape = true.
+Proof. exact V9.Shape.PLog.logger_shape_ok. Qed.
+Print Assumptions C20_source_logger_shape.
